@@ -459,11 +459,24 @@ def _whole_method_pure(cls, method, seen=None):
 
 # ------------------------------------------------------------------------------------------------
 
+def _is_view_call(v):
+    """d.keys() / d.items(): set-like views - their & | - ^ combinations are sets"""
+    return isinstance(v, ast.Call) and isinstance(v.func, ast.Attribute) and v.func.attr in ("keys", "items") and not v.args
+
+
 def _is_set_expr(v):
     if isinstance(v, (ast.Set, ast.SetComp)):
         return True
     if isinstance(v, ast.Call) and isinstance(v.func, ast.Name) and v.func.id in ("set", "frozenset"):
         return True
+    if isinstance(v, ast.Call) and isinstance(v.func, ast.Attribute) and \
+            v.func.attr in ("union", "intersection", "difference", "symmetric_difference") and \
+            (_is_set_expr(v.func.value) or _is_view_call(v.func.value)):
+        return True
+    if isinstance(v, ast.BinOp) and isinstance(v.op, (ast.BitAnd, ast.BitOr, ast.Sub, ast.BitXor)):
+        sides = (v.left, v.right)
+        if any(_is_set_expr(x) for x in sides) or any(_is_view_call(x) for x in sides):
+            return True
     return False
 
 
@@ -518,8 +531,29 @@ def no_hash_order(tree, g, label):
     g.check(f"{label}: no iteration order taken from a set", not problems, {"problems": problems[:6]})
 
 
+STATEFUL_DECORATORS = {"lru_cache", "cache", "cached_property", "memoize", "memoized"}
+
+
 def no_global_mutation(tree, g, label):
     problems = []
+    # a module-level generator / iterator is consumed by its first user: later calls see something else
+    for st in tree.body:
+        if isinstance(st, ast.Assign) and (isinstance(st.value, ast.GeneratorExp) or (
+                isinstance(st.value, ast.Call) and isinstance(st.value.func, ast.Name) and st.value.func.id in ("iter", "map", "filter", "zip"))):
+            problems.append(f"line {st.lineno}: module-level one-shot iterator {[getattr(t, 'id', '?') for t in st.targets]}")
+        if isinstance(st, ast.ClassDef):
+            for s2 in st.body:
+                if isinstance(s2, ast.Assign) and isinstance(s2.value, ast.GeneratorExp):
+                    problems.append(f"line {s2.lineno}: class-level one-shot iterator in {st.name}")
+    # memoising decorators keep results (often mutable objects) alive across calls
+    for fn in [n for n in ast.walk(tree) if isinstance(n, (ast.FunctionDef, ast.AsyncFunctionDef))]:
+        if len(fn.body) == 1 and isinstance(fn.body[0], ast.Pass):
+            continue            # (pruned: not reachable from the property's entry points)
+        for d in fn.decorator_list:
+            target = d.func if isinstance(d, ast.Call) else d
+            nm = target.id if isinstance(target, ast.Name) else getattr(target, "attr", None)
+            if nm in STATEFUL_DECORATORS:
+                problems.append(f"{fn.name} line {fn.lineno}: results memoised across calls by @{nm}")
     module_mutables = set()
     for st in tree.body:
         if isinstance(st, ast.Assign) and isinstance(st.value, (ast.Dict, ast.List, ast.Set, ast.Call, ast.DictComp,
